@@ -610,3 +610,32 @@ def key_toder(fmt, oid, priv, pub):
 def key_fromder(d):
     sk = keys.SigningKey.from_der(unhx(d))
     return f"ok {sk.curve.name} {int(sk.privkey.secret_multiplier)}"
+
+
+def _sint(i):
+    i = int(i)
+    return f"n{-i}" if i < 0 else str(i)
+
+
+@op("curve.toder")
+@_g
+def curve_toder(p, a, b, gx, gy, order, cof, enc):
+    """Curve.to_der("explicit", point_encoding) of a curve object with these parameters"""
+    from register_crypto_plugin.ecdsa import ellipticcurve as ell
+    pi = lambda t: -int(t[1:]) if t.startswith("n") else int(t)
+    fp = ell.CurveFp(int(p), pi(a), pi(b), None if cof == "-" else int(cof))
+    gen = ell.PointJacobi(fp, int(gx), int(gy), 1, int(order), generator=True)
+    c = curves.Curve("custom", fp, gen, None)
+    return "ok " + hx(c.to_der("explicit", enc))
+
+
+@op("curve.fromder")
+@_g
+def curve_fromder(d):
+    """Curve.from_der on explicit parameters: which curve object comes back"""
+    c = curves.Curve.from_der(unhx(d))
+    g0 = c.generator
+    cof = c.curve.cofactor()
+    return (f"ok {c.name} {int(c.curve.p())} {_sint(c.curve.a())} {_sint(c.curve.b())} {int(g0.x())} {int(g0.y())} "
+            f"{int(g0.order())} {'-' if cof is None else int(cof)}")
+
